@@ -166,7 +166,8 @@ Target Tables:
             self._sql_holder.get_column_lineage(
                 exclude_path_ending_in_subquery, exclude_subquery_columns
             ),
-            key=lambda x: (str(x[-1]), str(x[0])),
+            # the whole printed path breaks ties between paths with the same ends (else their order follows set order)
+            key=lambda x: (str(x[-1]), str(x[0]), tuple(str(c) for c in x)),
         )
 
     def print_column_lineage(self) -> None:
